@@ -191,7 +191,7 @@ func (c *Ctx) sortedBefore(fn *ssa.Function, src ssa.Instruction, use ssa.Instru
 			return
 		}
 		key := core.CalleeKey(&call.Call)
-		if (strings.HasPrefix(key, "slices.Sort") || strings.HasPrefix(key, "sort.")) && flowsTo(sv, call.Call.Args[0]) && core.Dominates(call, use) {
+		if isOrderingSort(call, key) && flowsTo(sv, call.Call.Args[0]) && core.Dominates(call, use) {
 			sorted = true
 		}
 	})
@@ -878,7 +878,7 @@ func (c *Ctx) judgeSliceUses(uses []ssa.Instruction, isSlice func(ssa.Value) boo
 	for _, u := range uses {
 		if call, ok := u.(*ssa.Call); ok {
 			key := core.CalleeKey(&call.Call)
-			if strings.HasPrefix(key, "slices.Sort") || strings.HasPrefix(key, "sort.") {
+			if isOrderingSort(call, key) {
 				sortCall = call
 			}
 		}
@@ -890,7 +890,7 @@ func (c *Ctx) judgeSliceUses(uses []ssa.Instruction, isSlice func(ssa.Value) boo
 			switch {
 			case key == "builtin.len" || key == "builtin.cap":
 				continue
-			case strings.HasPrefix(key, "slices.Sort") || strings.HasPrefix(key, "sort."):
+			case isOrderingSort(x, key):
 				continue
 			case key == "errors.Join" || strings.HasPrefix(key, "fmt.Errorf") || key == "fmt.Sprintf" || key == "strings.Join":
 				// only the text of an error can depend on the order
@@ -1053,4 +1053,59 @@ func (c *Ctx) elemAttribute(v ssa.Value, l *randLoop, depth int) string {
 		}
 	}
 	return ""
+}
+
+// isOrderingSort: the call sorts its argument into an order that does not depend on the order it had: a sort by
+// the natural order of the elements, or by a comparator that does not rank two different elements as equal.
+// A comparator that compares a lossy image of the elements (lower-cased, trimmed, their length) leaves ties
+// between different elements, and the order of tied elements is the order they had (for keys collected from a
+// map: the iteration order).
+func isOrderingSort(call *ssa.Call, key string) bool {
+	if !(strings.HasPrefix(key, "slices.Sort") || strings.HasPrefix(key, "sort.")) {
+		return false
+	}
+	idx, ok := hofSlice[key]
+	if !ok || idx[1] >= len(call.Call.Args) {
+		return true // slices.Sort, sort.Strings ...: the natural order
+	}
+	for _, src := range traceSources(call.Call.Args[idx[1]]) {
+		var fn *ssa.Function
+		switch x := src.(type) {
+		case *ssa.MakeClosure:
+			fn, _ = x.Fn.(*ssa.Function)
+		case *ssa.Function:
+			fn = x
+		}
+		if fn == nil {
+			continue
+		}
+		if lossyComparator(fn) {
+			return false
+		}
+	}
+	return true
+}
+
+var lossyImage = map[string]bool{"strings.ToLower": true, "strings.ToUpper": true, "strings.ToTitle": true, "strings.TrimSpace": true, "strings.Trim": true,
+	"strings.TrimLeft": true, "strings.TrimRight": true, "strings.TrimPrefix": true, "strings.TrimSuffix": true, "strings.Fields": true, "strings.EqualFold": true,
+	"builtin.len": true, "unicode.ToLower": true, "unicode.ToUpper": true, "strings.Title": true, "strings.Map": true, "path.Base": true, "strings.ReplaceAll": true}
+
+// lossyComparator: what the comparator compares is computed from its parameters through a function that maps
+// different elements to the same value.
+func lossyComparator(fn *ssa.Function) bool {
+	lossy := false
+	core.EachInstr(fn, func(i ssa.Instruction) {
+		ret, ok := i.(*ssa.Return)
+		if !ok {
+			return
+		}
+		for _, r := range ret.Results {
+			for _, v := range backSlice(r, 30) {
+				if call, ok := v.(*ssa.Call); ok && lossyImage[core.CalleeKey(&call.Call)] {
+					lossy = true
+				}
+			}
+		}
+	})
+	return lossy
 }
